@@ -57,7 +57,7 @@ PROPERTIES = {
                 explanation='lock-rank discipline: at every acquisition site (original source text of the engines, registries and of the real macro expansions) every lock already held has a strictly smaller rank and no lock is re-acquired; a sufficient condition for deadlock freedom for all schedules',
                 assumptions=['locks taken inside user closures / predicates / estimate_memory are not covered', 'parking_lot locks are fair enough not to starve (deadlock freedom only)'],
                 trusted=['extract/locks.py: guard lifetimes follow Rust drop semantics (let-bound guards to end of block, temporaries to end of statement / scrutinee construct)']),
-    'C06': dict(units=ENGINES, extra=[_reg('C06')], explanation='on every fixture expansion the ttl attribute arrives at the constructor as written (structural); is_expired == (age >= ttl) and the get postconditions never_serves_expired / purges_expired / serves_unexpired, for all ttl and ages'),
+    'C06': dict(units=ENGINES + WRAPPERS, extra=[_reg('C06')], explanation='on every fixture expansion the ttl attribute arrives at the constructor as written (structural); on the expansions a lookup goes through the engine and an expired entry is never served (the wrapper contracts define a hit as an UNEXPIRED entry: a miss runs the body); is_expired == (age >= ttl) and the get postconditions never_serves_expired / purges_expired / serves_unexpired, for all ttl and ages'),
     'C04': dict(units=ENGINES + ['wrappers_global', 'wrappers_async'], extra=[_reg('C04')], explanation='on every fixture expansion the limit attribute arrives at the constructor as written (structural); wf / bound / exact-victim postconditions of insert and of the entry-limit eviction, all N, all six policies; the invalidation callbacks and wrappers emitted by the macros preserve the representation invariant the capacity bookkeeping rests on (queue and store hold exactly the same keys, once each)'),
     'C01': dict(units=ENGINES + WRAPPERS, extra=[_reg('C01')], explanation='the key is computed once, before the lookup, and the statics are local to the decorated function (structural); get returns a clone of the value stored under exactly this key; insert: last store wins, survivors unchanged'),
     'C07': dict(units=ENGINES + ['policy', 'wrappers_global', 'wrappers_async'], extra=[_reg('C07'), _kani('C07', 'policy')], explanation='on every fixture expansion the policy attribute arrives at the constructor as written (sync: the variant; async: the string, and EvictionPolicy::from maps every policy name to its own variant: unit policy); queue postconditions: hit_recency, store moves key to back, FIFO/LRU victim is the queue front; the conditional-invalidation callbacks emitted by the macros keep the relative queue order of the survivors (queue_order_preserved)'),
